@@ -80,20 +80,24 @@ def run(replay=None):
     rep.count('properties', len(props))
     rep.count('properties_split', sum(1 for p in props if len(p['parts']) > 1))
     os.makedirs(tlc.BUILD, exist_ok=True)
-    maxlen = 4 if thorough else 3
-    deltas = '0, 1' if thorough else '0, 1, 2'
     nb = 0
     localised = 0
     B = 30
-    for react in ('FALSE', 'TRUE'):
-        # re-activation only concerns after-until scopes
-        sel = props if react == 'FALSE' else [p for p in props if p['orig']['scope']['scope_type'] == 'AFTER_UNTIL']
+    # quick: traces up to 3 messages, 3 time steps.  thorough: the same for ALL shapes, and traces up to 4 messages (2 time
+    # steps) for every sixth shape and every shape with a derived disjunction or a literal predicate
+    passes = [('FALSE', 3, '0, 1, 2', props), ('TRUE', 3, '0, 1, 2', [p for p in props if p['orig']['scope']['scope_type'] == 'AFTER_UNTIL'])]
+    if thorough:
+        deep = [p for i, p in enumerate(props) if i % 6 == 0 or '[an alternative moved' in p['text'] or 'False' in p['text']]
+        passes += [('FALSE', 4, '0, 1', deep), ('TRUE', 4, '0, 1', [p for p in deep if p['orig']['scope']['scope_type'] == 'AFTER_UNTIL'][::2])]
+    maxlen, deltas = (4, '0, 1 (3 messages: 0, 1, 2)') if thorough else (3, '0, 1, 2')
+    for react, maxlen_, deltas_, sel in passes:
+        # (re-activation only concerns after-until scopes)
         for b in range(0, len(sel), B):
             batch = sel[b:b + B]
             path = os.path.join(tlc.BUILD, 'props_c12_%d_%s_%d.json' % (os.getpid(), react, b))
             with open(path, 'w') as f:
                 json.dump(batch, f)
-            cfg = CFG % (deltas, maxlen, react)
+            cfg = CFG % (deltas_, maxlen_, react)
             if react == 'TRUE':
                 cfg = cfg.replace('INVARIANT EquivSpec\n', '')
             res = tlc.run_model('MC_Monitor', cfg_text=cfg, env={'PROPS_FILE': path}, timeout=3400)
@@ -111,7 +115,7 @@ def run(replay=None):
                         break
                     with open(path, 'w') as f:
                         json.dump([pr], f)
-                    r1 = tlc.run_model('MC_Monitor', cfg_text=CFG % (deltas, maxlen, react), env={'PROPS_FILE': path}, timeout=3400)
+                    r1 = tlc.run_model('MC_Monitor', cfg_text=CFG % (deltas_, maxlen_, react), env={'PROPS_FILE': path}, timeout=3400)
                     os.unlink(path)
                     if r1['violated']:
                         localised += 1
